@@ -13,6 +13,7 @@ import (
 
 	"github.com/prometheus/client_golang/prometheus"
 	"google.golang.org/protobuf/proto"
+	"google.golang.org/protobuf/types/known/timestamppb"
 
 	"github.com/prometheus/alertmanager/internal/verif/rep"
 	"github.com/prometheus/alertmanager/internal/verif/vfs"
@@ -200,7 +201,8 @@ func n11BigRoundTrip(t *testing.T, n int) (desc string) {
 // of the places a caller controls: receiver data an integration stored, a group key built from label values, a
 // receiver name). Whatever Log answers, the following maintenance and shutdown snapshots must still be written and
 // the next start must load exactly the log as it was in memory; a refused call (error) must have changed nothing.
-var n11HostileKinds = []string{"store value not UTF-8", "store key not UTF-8", "group key not UTF-8", "receiver name not UTF-8", "integration name not UTF-8", "NUL and control bytes everywhere (valid UTF-8)", "store value of 1 MB"}
+var n11HostileKinds = []string{"store value not UTF-8", "store key not UTF-8", "group key not UTF-8", "receiver name not UTF-8", "integration name not UTF-8", "NUL and control bytes everywhere (valid UTF-8)", "store value of 1 MB",
+	"learned by gossip: no receiver", "learned by gossip: empty group key", "learned by gossip: no timestamp", "learned by gossip: receiver data with a value of no kind"}
 
 func n11Hostile(t *testing.T, kind int, when int) (desc string) {
 	synctest.Test(t, func(t *testing.T) {
@@ -246,12 +248,46 @@ func n11Hostile(t *testing.T, kind int, when int) (desc string) {
 			st.SetStr("blob", strings.Repeat("z", 1<<20))
 		}
 		before := n11Dump(l)
-		lerr := l.Log(recv, gk, []uint64{2}, nil, st, 0)
+		var lerr error
+		if kind >= 7 {
+			// what a peer gossips is merged without going through Log: whatever is taken in must be written out and load again
+			now := time.Now()
+			e := &pb.MeshEntry{Entry: &pb.Entry{Receiver: recv, GroupKey: []byte(gk), Timestamp: timestamppb.New(now), FiringAlerts: []uint64{2}}, ExpiresAt: timestamppb.New(now.Add(time.Hour))}
+			switch kind {
+			case 7:
+				e.Entry.Receiver = nil
+			case 8:
+				e.Entry.GroupKey = nil
+			case 9:
+				e.Entry.Timestamp = nil
+			case 10:
+				e.Entry.ReceiverData = map[string]*pb.ReceiverDataValue{"k": {}}
+			}
+			b, err := vMarshalEntry(e)
+			if err != nil {
+				panic(err)
+			}
+			func() {
+				defer func() {
+					if p := recover(); p != nil {
+						lerr = fmt.Errorf("Merge panics: %v", p)
+						desc = lerr.Error()
+					}
+				}()
+				lerr = l.Merge(b)
+			}()
+			if desc != "" {
+				return
+			}
+			recv, gk = nil, ""
+		} else {
+			lerr = l.Log(recv, gk, []uint64{2}, nil, st, 0)
+		}
 		if lerr != nil && n11Dump(l) != before {
 			desc = fmt.Sprintf("Log refused the entry (%v) but the log changed", lerr)
 			return
 		}
-		if lerr == nil {
+		if lerr == nil && recv != nil {
 			if _, qerr := l.Query(QReceiver(recv), QGroupKey(gk)); qerr != nil {
 				desc = fmt.Sprintf("Log accepted the entry but a query for it answers %v", qerr)
 				return
